@@ -43,10 +43,12 @@ def c01():
     chk = Check("C01", "model_checking")
     chk.mc(_fam(chk.tier), "SpecCore", _core_consts(),
            ["TypeOK", "Inv_Feasible", "Inv_CompleteAfterN"], timeout=3000)
-    behs, r = tlc_behaviours("c01", fam="FamA", filt="FiltA", mode="prefixes",
+    behs, r = tlc_behaviours("c01", fam="FamA", filt="FiltA", mode="complete",
                              simulate=f"num={_n(chk, 500, 4000)}", workers=4)
-    chk.behaviours_from_tlc = len(behs)
     n = _run_traces(chk, behs, "tlc-simulated")
+    behs, r = tlc_behaviours("c01p", fam="FamA", filt="FiltA", mode="prefixes", faults=1, resets=1,
+                             simulate=f"num={_n(chk, 150, 1500)}", workers=4)
+    n += _run_traces(chk, behs, "tlc-simulated-prefixes-faults-resets", start_tid=n + 1)
     if chk.tier == "thorough":
         behs3, _ = tlc_behaviours("c01m3", fam="FamM3", filt="FiltAll2", mode="complete",
                                   simulate="num=2000", workers=4)
@@ -96,7 +98,7 @@ def c05():
     chk.mc(_fam("quick"), "SpecCore", _core_consts(), ["Inv_Partitions"], name="C05-core")
     # TLC chooses the query sequences between dispatches
     behs, _ = tlc_behaviours("c05", fam="FamA", filt="FiltB", queries=6, resets=1, mode="complete",
-                             simulate=f"num={_n(chk, 500, 4000)}", workers=4, depth=60)
+                             simulate=f"num={_n(chk, 250, 3000)}", workers=4, depth=60)
     n = _run_traces(chk, behs, "tlc-simulated-queries", arg_probe=True)
     # every ordered pair (thorough: triple) of memoised queries, each issued twice, in every state
     rng = random.Random(chk.seed + 5)
@@ -197,7 +199,7 @@ def c10():
            ["Inv_Notifications", "Inv_NotifyInOrder", "Inv_SeesPostState", "Inv_Singleton", "Inv_History"],
            constraints=["Depth8" if chk.tier == "quick" else "Depth9"], timeout=3000)
     behs, _ = tlc_behaviours("c10", fam="FamB", filt="FiltB", nobs=4, kinds="K4", obsops=5, faults=1,
-                             resets=2, mode="prefixes", simulate=f"num={_n(chk, 600, 5000)}", workers=4, depth=60)
+                             resets=2, mode="prefixes", simulate=f"num={_n(chk, 120, 1500)}", workers=4, depth=60)
     n = _run_traces(chk, behs, "tlc-simulated-observers", create_or_get_probe=True)
     rng = random.Random(chk.seed + 10)
     rb = [random_behaviour(rng, faults=0.05, resets=0.05, kinds=("rec", "histsub", "hist", "rec"), obsops=0.15,
